@@ -92,18 +92,31 @@ def main():
             shutil.rmtree(work, ignore_errors=True)
     finally:
         shutil.rmtree(base, ignore_errors=True)
-    if not args.no_write and not args.only:
+    if not args.no_write:
+        # rows are kept in SENSITIVITY.json (keyed by change name); a partial run (--only) updates its rows only
+        jp = os.path.join(VERIF, 'SENSITIVITY.json')
+        allrows = {}
+        if os.path.exists(jp) and args.only:
+            allrows = json.load(open(jp))
+        stamp = time.strftime('%Y-%m-%d %H:%M')
+        for r in rows:
+            allrows[r['name']] = dict((k, v) for k, v in r.items() if k not in ('patch', 'strip'))
+            allrows[r['name']]['run_at'] = stamp
+        json.dump(allrows, open(jp, 'w'), indent=1, sort_keys=True)
+        ordered = [allrows[k] for k in sorted(allrows)]
         with open(os.path.join(VERIF, 'SENSITIVITY.md'), 'w') as f:
             f.write('# Sensitivity run\n\nEach patch is applied to a scratch copy of /repo (never to /repo), the quick check of its property is run with '
                     '`--repo <copy> --fail-fast`; breaking changes must give exit 1 and a replay that reproduces on the mutant and not on the '
-                    'unchanged tree, benign refactors must give exit 0.\n\n')
-            f.write('| change | origin | property | expectation | exit | wall s | result | replay on mutant / clean | first rule hit |\n|---|---|---|---|---|---|---|---|---|\n')
-            for r in rows:
-                f.write('| %s | %s | %s | %s | %s | %s | %s | %s / %s | %s |\n' % (
+                    'unchanged tree, benign refactors must give exit 0. `own` = my mutants (mutants/*.patch), `sub-agent` = independently seeded '
+                    'changes (seeded/<id>/). Regenerate with `tools/sensitivity.py` (all) or `tools/sensitivity.py --only <name>...` (updates those rows).\n\n')
+            f.write('%d changes: %d as expected.\n\n' % (len(ordered), sum(1 for r in ordered if r['result'] == 'OK')))
+            f.write('| change | origin | property | expectation | exit | wall s | result | replay on mutant / clean | first rule hit | run at |\n|---|---|---|---|---|---|---|---|---|---|\n')
+            for r in ordered:
+                f.write('| %s | %s | %s | %s | %s | %s | %s | %s / %s | %s | %s |\n' % (
                     r['name'], r['origin'], r['prop'], r['expect'], r.get('rc'), r.get('wall'), r['result'], r.get('replay_on_mutant', '-'),
-                    r.get('replay_on_clean', '-'), (r.get('rule') or '').replace('|', '/')))
+                    r.get('replay_on_clean', '-'), (r.get('rule') or '').replace('|', '/'), r.get('run_at', '')))
             f.write('\n## What each change does\n\n')
-            for r in rows:
+            for r in ordered:
                 f.write('* `%s` — %s\n' % (r['name'], r['desc']))
     bad = [r for r in rows if not r['result'].startswith('OK') or '(' in r['result']]
     print('%d changes, %d not as expected' % (len(rows), len(bad)))
